@@ -331,4 +331,26 @@ def seedfwd(run, p):
                 ok = isinstance(x.value, ast.Name) and x.value.id == 'seed' and 'seed' in m.params and not cond
                 run.ob('C14-SEEDFWD', '%s::%s::self.seed' % (m.rel, m.short), ok,
                        'self.seed = %s%s' % (norm(x.value)[:50], '' if ok else ': the caller\'s seed can be replaced or dropped'), fn=m, node=x)
-    run.floor('C14-SEEDFWD', n, 3)
+    # the module-level entry points that take a seed hand it on: every call they make to extract() / Extractor(...) carries seed=<their
+    # own seed parameter> (or passes it positionally in the seed position)
+    for fname in ('extract', 'pdextract'):
+        f = p.fn('tdda.rexpy.rexpy.' + fname)
+        if 'seed' not in f.params:
+            raise AnalysisError('%s no longer takes a seed' % fname)
+        for x in p.own_nodes(f):
+            if isinstance(x, ast.Call) and norm(x.func).split('.')[-1] in ('extract', 'Extractor') and not (fname == 'extract' and norm(x.func) == 'extract'):
+                callee = p.fn('tdda.rexpy.rexpy.extract') if norm(x.func).split('.')[-1] == 'extract' else ex.methods['__init__']
+                pos = [q for q in callee.posparams if q != 'self']
+                given = {k.arg: k.value for k in x.keywords if k.arg}
+                for i, a in enumerate(x.args):
+                    if i < len(pos) and not isinstance(a, ast.Starred):
+                        given[pos[i]] = a
+                star = any(k.arg is None for k in x.keywords)
+                v = given.get('seed')
+                n += 1
+                ok = isinstance(v, ast.Name) and v.id == 'seed'
+                run.ob('C14-SEEDFWD', '%s::%s::%s' % (f.rel, f.short, norm(x.func)), ok,
+                       '%s calls %s with seed=%s%s' % (fname, norm(x.func), norm(v) if v is not None else 'nothing',
+                                                       '' if ok else (': the caller\'s seed is dropped' + (' (a named seed parameter is not part of **kwargs)' if star else ''))),
+                       fn=f, node=x)
+    run.floor('C14-SEEDFWD', n, 5)
